@@ -452,6 +452,9 @@ func buildAlphabet(localhopCfg bool, pairs bool) *alphabet {
 		with(base("fib/add-nexthop"), fFaceId, "4", fCost, "5"),
 		with(base("fib/remove-nexthop"), fFaceId, "4"),
 		base("strategy-choice/set"),
+		// a second version-less choice, another prefix and another strategy: two stored strategy
+		// names must stay independent (the hash-table FIB stores the name it is given)
+		with(base("strategy-choice/set"), fName, "/c", fStrategy, strategyPrefix+"/best-route"),
 		base("strategy-choice/unset"),
 		base("cs/config"),
 		with(base("faces/update"), fMtu, "1500"),
